@@ -32,6 +32,7 @@ package utils
 //@   inline
 //@ func (Set).Add
 //@   props C14
+//@   modifies anything
 //@   inline
 
 // smallest / largest of a non-empty list
